@@ -16,6 +16,9 @@ CHECKS = {
  "C09": dict(technique="invariant at a hook: frame/operand stack depth sampled inside running loops via #%verif-stack-depth; process-survival and peak-RSS monitors at n and 10n iterations",
              text="Exploration: generated tail-loop shapes are run for 10^3..10^5 (quick) / 10^7 (thorough) iterations with JIT on and off; depth samples taken inside the loop at the first, middle and last iteration must stay within a 16-slot slack, the result must equal the closed form, the process must survive, peak RSS at 10n may exceed that at n by at most 48 MB; deep non-tail recursion must end in an error value.",
              note="Trusted: the depth hook reports lengths of the VM's frame and operand stacks; native stack use is covered only by process survival.", ref="DESIGN.md §5 C09"),
+ "C18": dict(technique="runtime monitoring of child processes: exit-status / stack-overflow / panic monitors per (shape x operation x depth), termination deadline for small cyclic structures",
+             text="Exploration: each (value shape x operation x depth) runs on the real engine in its own forked child (default 8 MB stack; 1 MB in the thorough tier); a death by signal/abort, a panic, or non-termination on a <=10-cell cyclic structure is a violation; an error value is accepted.",
+             note="Trusted: fork isolation. Time-outs on deep acyclic values and address-space-cap aborts are inconclusive cases.", ref="DESIGN.md §5 C18"),
 }
 NOT_YET = "check not built yet in this session (planned in DESIGN.md §5); no claim is made"
 man = {
